@@ -6,6 +6,7 @@
 package main
 
 import (
+	"crypto/rand"
 	"bytes"
 	"crypto"
 	"crypto/ecdsa"
@@ -73,6 +74,26 @@ func (a *vcAgent) Add(k agent.AddedKey) error {
 	a.privs = append(a.privs, k.PrivateKey)
 	a.mu.Unlock()
 	return a.Agent.Add(k)
+}
+
+// vcSeedAgent adds a certificate (issued by a throw-away CA) with the given comment; expired => its validity ended an hour ago
+func vcSeedAgent(a agent.Agent, comment string, expired bool) {
+	_, caKey, _ := ed25519.GenerateKey(rand.Reader)
+	caSigner, _ := ssh.NewSignerFromKey(caKey)
+	pub, priv, _ := ed25519.GenerateKey(rand.Reader)
+	sp, _ := ssh.NewPublicKey(pub)
+	now := time.Now()
+	cert := &ssh.Certificate{Key: sp, Serial: 1, CertType: ssh.UserCert, KeyId: "seed", ValidPrincipals: []string{"alice"},
+		ValidAfter: uint64(now.Add(-48 * time.Hour).Unix()), ValidBefore: uint64(now.Add(12 * time.Hour).Unix())}
+	if expired {
+		cert.ValidBefore = uint64(now.Add(-time.Hour).Unix())
+	}
+	if err := cert.SignCert(rand.Reader, caSigner); err != nil {
+		panic(err)
+	}
+	if err := a.Add(agent.AddedKey{PrivateKey: &priv, Certificate: cert, Comment: comment}); err != nil {
+		panic(err)
+	}
 }
 
 func vcServeAgent(path string, a agent.Agent) net.Listener {
@@ -224,6 +245,11 @@ func TestVerif(t *testing.T) {
 		var lst net.Listener
 		if c.Agent {
 			ag = &vcAgent{Agent: agent.NewKeyring()}
+			// what an agent that has been in use holds: certificates left over under the labels the client is about to
+			// use - one of them already expired, never given an agent lifetime - and a certificate of another tool
+			for _, lbl := range []string{"keymaster-" + c.Pref + "-alice", "keymaster-ed25519-alice", "other-tool-alice"} {
+				vcSeedAgent(ag.Agent, lbl, lbl != "other-tool-alice" && strings.Contains(lbl, c.Pref))
+			}
 			sock := filepath.Join(home, "agent.sock")
 			lst = vcServeAgent(sock, ag)
 			os.Setenv("SSH_AUTH_SOCK", sock)
@@ -388,7 +414,14 @@ func TestVerif(t *testing.T) {
 		enc.Encode(map[string]interface{}{"i": n, "ev": "ClientRun", "case": map[string]interface{}{"pref": c.Pref, "mode": c.Mode, "agent": c.Agent},
 			"out": map[string]interface{}{"ok": firstOK, "bothRoundsOk": len(runs) == 2 && runs[1]["ok"].(bool), "error": errText, "requests": nreq,
 				"privateKeysKnown": len(privs), "wirePrivHits": hits, "publicHalvesSeenOnWire": pubSeen, "files": files, "agentLabels": labels,
-				"duplicateLabels": dupLabels, "dbg": dbg, "wireBytes": func() int { t := 0; for _, w := range allWire { t += len(w) }; return t }()}})
+				"duplicateLabels": dupLabels, "otherToolKept": func() bool {
+					for _, l := range labels {
+						if l == "other-tool-alice" {
+							return true
+						}
+					}
+					return ag == nil
+				}(), "dbg": dbg, "wireBytes": func() int { t := 0; for _, w := range allWire { t += len(w) }; return t }()}})
 		n++
 		os.RemoveAll(home)
 	}
